@@ -2,6 +2,7 @@
 
 from __future__ import annotations
 
+import atexit
 import io
 import logging
 import os
@@ -19,6 +20,23 @@ class Result:
         return f"<cli exit={self.code} stderr={self.stderr[-200:]!r}>"
 
 
+# -- the process-exit seam ---------------------------------------------------
+# Callbacks which the code under test registers with atexit belong to the
+# simulated process: they are collected here and run, last registered first,
+# when that process ends (end_of_process) - not when the harness exits.
+_EXIT_FUNCS = []
+_REAL_ATEXIT = (atexit.register, atexit.unregister)
+
+
+def _sim_register(func, *args, **kwargs):
+    _EXIT_FUNCS.append((func, args, kwargs))
+    return func
+
+
+def _sim_unregister(func):
+    _EXIT_FUNCS[:] = [e for e in _EXIT_FUNCS if e[0] != func]
+
+
 def invoke(cli, args, prog="pretext-to-asm", stdin_text=""):
     """cli.main(args, standalone_mode=True) with stdio captured.  An uncaught
     exception is what the interpreter would turn into exit status 1 plus a
@@ -27,6 +45,7 @@ def invoke(cli, args, prog="pretext-to-asm", stdin_text=""):
     old = sys.stdout, sys.stderr, sys.stdin
     sys.stdout, sys.stderr, sys.stdin = out, err, io.StringIO(stdin_text)
     code, exc = 0, None
+    atexit.register, atexit.unregister = _sim_register, _sim_unregister
     try:
         try:
             cli.main(args=[os.fspath(a) for a in args], prog_name=prog, standalone_mode=True)
@@ -45,14 +64,25 @@ def invoke(cli, args, prog="pretext-to-asm", stdin_text=""):
             traceback.clear_frames(e.__traceback__)
             code = 1
     finally:
+        atexit.register, atexit.unregister = _REAL_ATEXIT
         sys.stdout, sys.stderr, sys.stdin = old
     return Result(code, out.getvalue(), err.getvalue(), exc)
 
 
-def end_of_process():
-    """What interpreter shutdown does to logging: flush and close every
-    handler (logging.shutdown), then forget them so the next simulated process
-    starts with a fresh root logger."""
+def end_of_process(killed=False):
+    """What interpreter shutdown does: run the atexit callbacks the simulated
+    process registered (last first; a killed process runs none), then - the
+    callback logging registered first of all - flush and close every logging
+    handler, and forget them so the next simulated process starts with a
+    fresh root logger."""
+    funcs = list(_EXIT_FUNCS)
+    del _EXIT_FUNCS[:]
+    if not killed:
+        for func, args, kwargs in reversed(funcs):
+            try:
+                func(*args, **kwargs)
+            except Exception:  # noqa: BLE001 - the interpreter prints it and carries on
+                pass
     root = logging.getLogger()
     for h in list(root.handlers):
         try:
